@@ -19,6 +19,14 @@ var replayRepeatSrc string
 //go:embed replay_faults_test.go.tmpl
 var replayFaultsSrc string
 
+//go:embed replay_openapi_test.go.tmpl
+var replayOpenAPISrc string
+
+// replayOpenAPI: C17 - export documents with the real code (injected test in package kit).
+func replayOpenAPI(eng *Engine) string {
+	return runKitReplay(eng, replayOpenAPISrc, "zz_govc_openapi_test.go", "TestGovcOpenAPIReplay", "OpenAPI export of documents on the real code (package kit):")
+}
+
 //go:embed replay_quoted_test.go.tmpl
 var replayQuotedSrc string
 
